@@ -1816,6 +1816,12 @@ func (m *StateMachine) advance(
 		// The state machine is still catching up with the mirror.
 		rlc.MarkCatchingUp()
 
+		// Until the replayed header is finalized we are not following a live round:
+		// clearing the previous height's view makes the kernel loop handle only the finalization,
+		// exactly as when replay begins at startup,
+		// instead of applying the mirror's views and jump-aheads for this height to stale round state.
+		rlc.VRV = nil
+
 		// The replayed header may have been committed in a later round than the one we asked for;
 		// the finalization must be recorded against, and will be answered with, that round.
 		rlc.R = rer.CH.Proof.Round
